@@ -1,12 +1,12 @@
 //! C14: the copy-on-write pointer owns its memory correctly on every path.
 //! Needs `--cfg metrics_verif` (hook: `metrics::VerifCow` re-exports the private `cow::Cow`).
+//! Operation sequences are fixed per harness (scenario S = 0..5); length, capacity and contents are symbolic.
 use metrics::SharedString;
 use nd::{cover, harnesses};
 use std::sync::atomic::{AtomicIsize, Ordering::SeqCst};
 use std::sync::Arc;
 
 static LIVE: AtomicIsize = AtomicIsize::new(0);
-static CLONES: AtomicIsize = AtomicIsize::new(0);
 
 /// Element with a destructor and a counted clone.
 #[derive(Debug, PartialEq, Eq)]
@@ -19,7 +19,6 @@ impl D {
 }
 impl Clone for D {
     fn clone(&self) -> D {
-        CLONES.fetch_add(1, SeqCst);
         D::new(self.0)
     }
 }
@@ -48,11 +47,15 @@ mod slice {
         }
         true
     }
+    fn same_vec(v: &[D], model: &[u8]) -> bool {
+        v.len() == model.len() && (model.is_empty() || (v[0].0 == model[0] && (model.len() < 2 || v[1].0 == model[1])))
+    }
 
     /// kind: 0 borrowed (from_borrowed), 1 borrowed (const_slice), 2 owned, 3 shared
-    pub fn program(kind: usize, steps: usize) {
+    pub fn program(kind: usize, scenario: usize) {
         LIVE.store(0, SeqCst);
-        let len = nd::below(3);
+        // Arc<[D]> with a symbolic length means a symbolic allocation layout, which the SAT back end cannot afford
+        let len = if kind == 3 { 2 } else { nd::below(3) };
         let model_full = [nd::any::<u8>(), nd::any::<u8>()];
         let model = &model_full[..len];
         let extra_cap = nd::below(2);
@@ -80,65 +83,57 @@ mod slice {
             }
         };
         assert!(same(&first, model), "content_after_construct");
-        let mut pool: [Option<Cow<'static, [D]>>; 2] = [Some(first), None];
-        let mut n = 1usize;
-        for _ in 0..steps {
-            let op = nd::below(3);
-            if n == 0 {
-                break;
+        match scenario {
+            0 => drop(first),
+            1 => {
+                let v = first.into_owned();
+                assert!(same_vec(&v, model), "into_owned_content");
             }
-            let i = nd::below(n);
-            match op {
-                0 => {
-                    if n < 2 {
-                        let c = pool[i].as_ref().unwrap().clone();
-                        assert!(same(&c, model), "content_after_clone");
-                        pool[n] = Some(c);
-                        n += 1;
-                    }
-                }
-                1 => {
-                    // take slot i out (swap-remove) and convert to the owned value
-                    let c = pool[i].take().unwrap();
-                    pool[i] = pool[n - 1].take();
-                    n -= 1;
-                    let v: Vec<D> = c.into_owned();
-                    assert!(v.len() == model.len(), "into_owned_len");
-                    let mut k = 0;
-                    while k < model.len() {
-                        assert!(v[k].0 == model[k], "into_owned_content");
-                        k += 1;
-                    }
-                    drop(v);
-                }
-                _ => {
-                    let c = pool[i].take().unwrap();
-                    pool[i] = pool[n - 1].take();
-                    n -= 1;
-                    drop(c);
-                }
+            2 => {
+                let c = first.clone();
+                assert!(same(&c, model), "content_after_clone");
+                drop(first);
+                assert!(same(&c, model), "clone_survives_drop_of_original");
+                let v = c.into_owned();
+                assert!(same_vec(&v, model), "into_owned_of_clone_content");
             }
-            let mut j = 0;
-            while j < n {
-                assert!(same(pool[j].as_ref().unwrap(), model), "content_of_survivors");
-                j += 1;
+            3 => {
+                let c = first.clone();
+                let v = first.into_owned();
+                assert!(same_vec(&v, model), "into_owned_content");
+                assert!(same(&c, model), "clone_survives_into_owned_of_original");
+                drop(v);
+                assert!(same(&c, model), "clone_survives_drop_of_owned_value");
+            }
+            4 => {
+                let c = first.clone();
+                let c2 = c.clone();
+                drop(c);
+                drop(first);
+                assert!(same(&c2, model), "second_clone_survives");
+            }
+            _ => {
+                let c = first.clone();
+                assert!(c == first, "clone_compares_equal");
+                let v1 = c.into_owned();
+                let v2 = first.into_owned();
+                assert!(same_vec(&v1, model) && same_vec(&v2, model), "both_owned_values_have_the_content");
             }
         }
-        cover!(n == 0, "all dropped by program reachable");
-        cover!(n == 2, "two live copies reachable");
-        drop(pool);
         if let Some(a) = keep_arc {
             assert!(Arc::strong_count(&a) == 1, "arc_refs_all_given_back");
+            assert!(a.len() == len, "arc_content_intact");
             drop(a);
         }
         assert!(LIVE.load(SeqCst) == leaked_live, "every_element_dropped_exactly_once");
+        cover!(kind == 3 || (len == 0 && extra_cap == 1), "empty with spare capacity reachable");
     }
 }
 
 /// kind: 0 const_str, 1 from_borrowed, 2 owned String (cap symbolic), 3 shared Arc<str>, 4 From<std Cow>
-fn str_program(kind: usize, steps: usize) {
+fn str_program(kind: usize, scenario: usize) {
     const T: &[&str] = &["", "a", "bc"];
-    let s: &'static str = crate::pick(T);
+    let s: &'static str = if kind == 3 { "bc" } else { crate::pick(T) };
     let extra_cap = nd::below(2);
     let mut keep_arc: Option<Arc<str>> = None;
     let first: SharedString = match kind {
@@ -163,48 +158,34 @@ fn str_program(kind: usize, steps: usize) {
         }
     };
     assert!(&*first == s, "content_after_construct");
-    let mut pool: [Option<SharedString>; 2] = [Some(first), None];
-    let mut n = 1usize;
-    for _ in 0..steps {
-        let op = nd::below(3);
-        if n == 0 {
-            break;
+    match scenario {
+        0 => drop(first),
+        1 => assert!(first.into_owned() == s, "into_owned_content"),
+        2 => {
+            let c = first.clone();
+            drop(first);
+            assert!(&*c == s, "clone_survives_drop_of_original");
+            assert!(c.into_owned() == s, "into_owned_of_clone_content");
         }
-        let i = nd::below(n);
-        match op {
-            0 => {
-                if n < 2 {
-                    let c = pool[i].as_ref().unwrap().clone();
-                    assert!(&*c == s, "content_after_clone");
-                    assert!(c == *pool[i].as_ref().unwrap(), "clone_eq");
-                    pool[n] = Some(c);
-                    n += 1;
-                }
-            }
-            1 => {
-                let c = pool[i].take().unwrap();
-                pool[i] = pool[n - 1].take();
-                n -= 1;
-                let o: String = c.into_owned();
-                assert!(o == s, "into_owned_content");
-            }
-            _ => {
-                let c = pool[i].take().unwrap();
-                pool[i] = pool[n - 1].take();
-                n -= 1;
-                drop(c);
-            }
+        3 => {
+            let c = first.clone();
+            let o = first.into_owned();
+            assert!(o == s && &*c == s, "clone_survives_into_owned_of_original");
+            drop(o);
+            assert!(&*c == s, "clone_survives_drop_of_owned_value");
         }
-        let mut j = 0;
-        while j < n {
-            assert!(&**pool[j].as_ref().unwrap() == s, "content_of_survivors");
-            j += 1;
+        _ => {
+            let c = first.clone();
+            assert!(c == first, "clone_compares_equal");
+            let c2 = c.clone();
+            drop(c);
+            drop(first);
+            assert!(&*c2 == s, "second_clone_survives");
         }
     }
-    cover!(n == 0, "all dropped by program reachable");
-    drop(pool);
     if let Some(a) = keep_arc {
         assert!(Arc::strong_count(&a) == 1, "arc_refs_all_given_back");
+        assert!(&*a == s, "arc_content_intact");
     }
 }
 
@@ -215,27 +196,38 @@ fn program(_k: usize, _s: usize) {
     panic!("built without --cfg metrics_verif");
 }
 
-harnesses! {
-    #[cfg_attr(kani, kani::unwind(4))]
-    fn c14_slice_borrowed() { program(nd::below(2), 2) }
-    #[cfg_attr(kani, kani::unwind(4))]
-    fn c14_slice_owned() { program(2, 2) }
-    #[cfg_attr(kani, kani::unwind(4))]
-    fn c14_slice_shared() { program(3, 2) }
-    #[cfg_attr(kani, kani::unwind(4))]
-    fn c14_str_borrowed() { str_program(nd::below(2), 2) }
-    #[cfg_attr(kani, kani::unwind(4))]
-    fn c14_str_owned() { str_program(2, 2) }
-    #[cfg_attr(kani, kani::unwind(4))]
-    fn c14_str_shared() { str_program(3, 2) }
-    #[cfg_attr(kani, kani::unwind(4))]
-    fn c14_str_from_std() { str_program(4, 2) }
-    #[cfg_attr(kani, kani::unwind(5))]
-    fn c14_slice_owned_3() { program(2, 3) }
-    #[cfg_attr(kani, kani::unwind(5))]
-    fn c14_slice_shared_3() { program(3, 3) }
-    #[cfg_attr(kani, kani::unwind(5))]
-    fn c14_str_owned_3() { str_program(2, 3) }
-    #[cfg_attr(kani, kani::unwind(5))]
-    fn c14_str_shared_3() { str_program(3, 3) }
+macro_rules! c14 {
+    ($($name:ident = $f:ident($k:expr, $s:expr);)*) => {
+        harnesses! { $( #[cfg_attr(kani, kani::unwind(4))] fn $name() { $f($k, $s) } )* }
+    };
+}
+c14! {
+    c14_slice_borrowed_s1 = program(0, 1);
+    c14_slice_borrowed_s2 = program(1, 2);
+    c14_slice_owned_s0 = program(2, 0);
+    c14_slice_owned_s1 = program(2, 1);
+    c14_slice_owned_s2 = program(2, 2);
+    c14_slice_owned_s3 = program(2, 3);
+    c14_slice_owned_s4 = program(2, 4);
+    c14_slice_owned_s5 = program(2, 5);
+    c14_slice_shared_s0 = program(3, 0);
+    c14_slice_shared_s1 = program(3, 1);
+    c14_slice_shared_s2 = program(3, 2);
+    c14_slice_shared_s3 = program(3, 3);
+    c14_slice_shared_s4 = program(3, 4);
+    c14_slice_shared_s5 = program(3, 5);
+    c14_str_borrowed_s1 = str_program(0, 1);
+    c14_str_borrowed_s2 = str_program(1, 2);
+    c14_str_owned_s0 = str_program(2, 0);
+    c14_str_owned_s1 = str_program(2, 1);
+    c14_str_owned_s2 = str_program(2, 2);
+    c14_str_owned_s3 = str_program(2, 3);
+    c14_str_owned_s4 = str_program(2, 4);
+    c14_str_shared_s0 = str_program(3, 0);
+    c14_str_shared_s1 = str_program(3, 1);
+    c14_str_shared_s2 = str_program(3, 2);
+    c14_str_shared_s3 = str_program(3, 3);
+    c14_str_shared_s4 = str_program(3, 4);
+    c14_str_from_std_s1 = str_program(4, 1);
+    c14_str_from_std_s3 = str_program(4, 3);
 }
